@@ -28,7 +28,11 @@ def common_grid(w1, w2, sampling):
     span = hi - lo
     q = span / d
     num = int(np.ceil(q))
-    ambiguous = abs(q - round(q)) < 1e-9 * max(1.0, abs(q))
+    # the spacing itself is a difference of neighbouring wavelengths, known to ~eps*|w| only: on a dense grid
+    # (spacing/wavelength = r) that is a relative uncertainty of eps/r in d and hence in the count q
+    wmax = float(max(np.max(np.abs(w1)), np.max(np.abs(w2))))
+    rel = max(1e-9, 16 * np.finfo(float).eps * wmax / d) if isinstance(sampling, str) else 1e-9
+    ambiguous = abs(q - round(q)) < rel * max(1.0, abs(q))
     return lo, hi, d, num + 1, ambiguous
 
 
